@@ -84,9 +84,13 @@ class Arm(object):
         self.keys = keys
         self.events = events
         self.pat = H.pat_term(node['pat'])
+        self.base = 0
 
     def calls(self, suffix=None):
         return [e for e in self.events if e.kind == 'call' and (suffix is None or e.callee.endswith(suffix))]
+
+    def script(self):
+        return script_of(self.events, self.base)
 
     def summary(self):
         out = []
@@ -102,6 +106,43 @@ class Arm(object):
         return out
 
 
+NOTABLE_PREFIX = ('io_loop::connection_state::', 'io_loop::Inner::', 'io_loop::channel_slots::ChannelSlots::', 'io_loop::content_collector::',
+                  'crossbeam_channel::', 'std::collections::HashMap::', 'std::collections::hash_map::VacantEntry::insert', 'mio_extras::channel::')
+PURE = ('std::collections::HashMap::new', 'io_loop::Inner::has_data_to_write', 'io_loop::Inner::are_writes_sealed')
+
+
+def script_of(events, base_guards=0):
+    """Ordered notable effects with their structural context, e.g.
+       'for(chan_slots.drain) > send(slot.tx, Err(..))'."""
+    out = []
+    for e in events:
+        ctxs = []
+        for g in e.guards[base_guards:]:
+            if g[2] == 'loop' and g[1] == 'for':
+                ctxs.append('for(%s)' % g[3])
+            elif g[2] == 'loop':
+                ctxs.append('loop')
+            elif g[2] == 'if':
+                ctxs.append('%s(%s)' % ('if' if g[1] == 'then' else 'unless', g[3]))
+            elif g[2] == 'match':
+                ctxs.append('case(%s)' % g[3])
+            elif g[2] == 'closure':
+                ctxs.append('closure')
+        pre = ' > '.join(ctxs)
+        txt = None
+        if e.kind == 'call' and e.callee.startswith(NOTABLE_PREFIX) and e.callee not in PURE:
+            txt = S.show(e.term)
+        elif e.kind == 'assign':
+            txt = '%s = %s' % (S.show(e.lhs), S.show(e.term))
+        elif e.kind == 'ret':
+            txt = 'return ' + S.show(e.term)
+        elif e.kind == 'try':
+            continue
+        if txt is not None:
+            out.append((pre + ' > ' if pre else '') + txt)
+    return out
+
+
 def read(ctx, depth=0):
     events, _ = ctx.events(PROCESS, depth=depth)
     fn = ctx.fn(PROCESS)
@@ -115,7 +156,14 @@ def read(ctx, depth=0):
         evs = [e for e in events if any(g[0] == m['sp'] and g[1] == 'arm:%d' % i for g in e.guards)]
         if a.get('guard') is not None:
             raise Unrecognised('guarded arm in `match frame`')
-        arms.append(Arm(i, a, keys, evs))
+        arm = Arm(i, a, keys, evs)
+        if evs:
+            # guards up to and including the arm's own guard are the base context
+            g0 = evs[0].guards
+            for j, g in enumerate(g0):
+                if g[0] == m['sp'] and g[1] == 'arm:%d' % i:
+                    arm.base = j + 1
+        arms.append(arm)
         ctx.counts['arms'] += 1
     return m, arms, events
 
